@@ -79,7 +79,8 @@ func (api *API) Import(assignment []frontend.Variable) (constraint.GkrVariable, 
 		return -1, errors.New("number of assignments must be consistent across all variables")
 	}
 	newVar := api.toStore.NewInputVariable()
-	api.assignments = append(api.assignments, assignment)
+	// Solve permutes and completes the assignments in place; do not do that to the caller's slice
+	api.assignments = append(api.assignments, append([]frontend.Variable(nil), assignment...))
 	return newVar, nil
 }
 
